@@ -10,8 +10,15 @@ from props import c03
 LEVEL = "other"
 
 
-def arms_by_variant(f, enum_suffix):
+def arms_by_variant(f, enum_suffix, facts=None):
     out = {}
+    if facts is not None:
+        # the function or the private piece of it that holds the match
+        for g in facts.family(f):
+            got = arms_by_variant(g, enum_suffix)
+            if got:
+                return got
+        return out
     for n in walk(f["body"]):
         if n.get("k") == "Match" and n.get("src") == "Normal" and enum_suffix in str(n.get("scrutty", "")):
             for arm in n["arms"]:
@@ -142,7 +149,7 @@ def c11_1(facts, res, rule="C11-1"):
     # ---- C11-1
     st = res.rule(rule, instances=0)
     f = facts.fn("xml_info::<XmlAttribute as Attribute>::normalized_value")
-    a = arms_by_variant(f, "XmlAttributeValue")
+    a = arms_by_variant(f, "XmlAttributeValue", facts)
     want = {"Char": ({"character_code"}, {"normalize_ws"}), "Entity": ({"attr_value_from_name"}, {"normalize_ws"}),
             "Text": ({"normalize_ws"}, {"attr_value_from_name"})}
     for v, (must, must_not) in want.items():
@@ -154,7 +161,7 @@ def c11_1(facts, res, rule="C11-1"):
             res.add(Finding(rule, "normalized_value|" + v, "normalized_value: the %s arm calls %s; expected %s and not %s"
                             % (v, sorted(ns or []), sorted(must), sorted(must_not)), f["file"], f["line"], {}))
     g = facts.fn("xml_info::expand_entity")
-    b = arms_by_variant(g, "XmlEntityValue")
+    b = arms_by_variant(g, "XmlEntityValue", facts)
     # replacement text (XML 1.0 4.5) contains the characters denoted by character references of the entity literal, so
     # they are normalised like literal text: 3.3.3's example `<!ENTITY d "&#xD;">  a="&d;"` gives one space
     want2 = {"Character": ({"char_from_char10", "char_from_char16", "normalize_ws"}, set()), "Entity": ({"expand_entity"}, {"normalize_ws"}),
@@ -185,6 +192,12 @@ def c11_8(facts, res, rule="C11-8"):
                     for arm2 in a2["arms"]:
                         if any(str(q.get("path", "")).endswith("QName::Prefixed") for q in walk(arm2["pat"])):
                             pp = arm2["body"]
+    if pp is None:
+        # one match on the pair: `(QName::Prefixed(a), QName::Prefixed(b)) => ..`
+        for n in inner:
+            for arm in n["arms"]:
+                if sum(1 for q in walk(arm["pat"]) if str(q.get("path", "")).endswith("QName::Prefixed")) == 2:
+                    pp = arm["body"]
     if pp is None:
         raise BrokenCheck("%s: no (Prefixed, Prefixed) case found in xml_info::equal_qname" % rule)
     eqs = [m for m in walk(pp) if m.get("k") == "Binary" and m.get("op") == "=="]
@@ -252,6 +265,36 @@ def run(facts, tier):
             else:
                 replaced |= c
             repl.append(m["args"][1].get("v") if m["args"][1].get("k") == "Lit" else None)
+    # `value.chars().map(|c| match c { ' ' | '\r' | '\n' | '\t' => ' ', c => c }).collect()`: a character-wise map whose arms
+    # either answer one constant or give the character back
+    for m in walk(h["body"]):
+        if m.get("k") == "MethodCall" and m["m"] == "map" and m.get("args") and m["args"][0].get("k") == "Closure" and \
+                any(x.get("k") == "MethodCall" and x.get("m") == "chars" for x in walk(m["recv"])):
+            clo = m["args"][0]
+            body = clo["body"]
+            while body.get("k") == "Block" and not body.get("stmts") and "expr" in body:
+                body = body["expr"]
+            if body.get("k") == "Match" and body.get("src") == "Normal":
+                for arm in body["arms"]:
+                    b_ = arm["body"]
+                    pats = [arm["pat"]] if arm["pat"].get("p") != "Or" else arm["pat"]["pats"]
+                    if b_.get("k") == "Lit" and b_.get("t") == "char" and "guard" not in arm:
+                        cs = set()
+                        for q in pats:
+                            if q.get("p") == "Expr" and q["e"].get("k") == "Lit" and q["e"].get("t") == "char":
+                                cs.add(int(q["e"]["v"]))
+                            elif q.get("p") == "Range" and q.get("lo", {}).get("k") == "Lit" and q.get("hi", {}).get("k") == "Lit":
+                                cs |= set(range(int(q["lo"]["v"]), int(q["hi"]["v"]) + (1 if q.get("incl") else 0)))
+                            else:
+                                unknown.append("pattern " + str(q.get("p")))
+                        replaced |= cs
+                        repl.append(chr(int(b_["v"])))
+                    elif b_.get("k") == "Path" and b_.get("res") == "Local":
+                        pass        # the character itself
+                    else:
+                        unknown.append("arm body " + str(b_.get("k")))
+            else:
+                unknown.append("map closure " + str(body.get("k")))
     if unknown:
         raise BrokenCheck("C11-2: a replace() pattern in normalize_ws is not a character constant (%s); shape not recognised" % unknown)
     consts = sorted(replaced)
